@@ -5,12 +5,14 @@ N in 0..=4 (and out-of-range indices for remove / swap_remove), checking the dro
 import os, re, shutil
 from common import *
 
-STANDIN_PROPS = ('C02', 'C04', 'C05', 'C09', 'C10', 'C11', 'C14', 'C15', 'C16', 'C20')
+STANDIN_PROPS = ('C02', 'C04', 'C05', 'C06', 'C09', 'C10', 'C11', 'C13', 'C14', 'C15', 'C16', 'C20')
 BOUND_UNWIND = 'N in 0..=4; every call index 0..=N of each closure/Clone/next; every single panicking element x every (front, back) iterator position x skip counts {0,1,2,N,usize::MAX}; idx in {N, N+1, usize::MAX} for remove/swap_remove'
 BOUNDS = {
     'C02': 'addresses of zero-extent views (CBMC does not model the address of a zero-sized place): element types (), an 8-aligned ZST, [u8; 0], and u32 with N = 0; N in {0, 2, 3}; thirteen view / reinterpretation forms',
     'C10': 'addresses and counts of from_chunks / into_chunks (shared and mutable) over zero-extent chunks: (), 8-aligned ZST, u32 with N = 0; three chunks',
     'C11': 'addresses of by-reference flatten / unflatten (& and &mut) for zero-extent arrays: () 2x3, 8-aligned ZST 3x2, u32 2x0, u8 3x0',
+    'C13': 'Debug under the flag sets CBMC cannot run ({:#?} and ten other width / precision / sign / hex / alternate combinations): array versus slice for u8 (N 0,1,3,5), i32, f64 with NaN, String with escapes, nested arrays, Option<u16>',
+    'C06': 'Debug of the iterator under {:?}, {:#?}, {:#x?}, {:8.1?}, {:#08?} at every (front, back) position for N <= 5 and six element types, against debug_tuple("GenericArrayIter") of the remaining slice',
     'C14': 'the chunked strategy on the real code (N > 1024 is beyond CBMC): N in {1024, 1025, 2047, 2048, 2049, 3000, 4096}; every precision 0..=2N+2 for 1025 and 2049, otherwise boundary precisions (0..3, N, N+1, 2N-1..2N+7, every multiple of 2048 +-2); both cases; built without and with feature faster-hex',
     'C15': '4 MiB of u8 on a 256 KiB-stack thread, seven boxed constructors / conversions; ' + BOUND_UNWIND,
     'C20': 'a panic in element expression k of arr!/box_arr! list forms with 1, 3, 4 elements (k in 0..=4); box_arr![x; N] for N in {0, 1, 3, 4} with a Clone-but-not-Copy element and a panic in clone k',
@@ -35,7 +37,7 @@ def run_standin(prop):
         markf = os.path.join(scratch, 'current_case.txt')
         open(markf, 'w').write('')
         env = {'CARGO_TARGET_DIR': os.path.join(scratch, 'target-standin'), 'STANDIN_MARK': markf}
-        only = {'C02': 'C02', 'C10': 'C10', 'C11': 'C11', 'C14': 'C14', 'C20': 'C20'}.get(prop)
+        only = {'C06': 'C06', 'C13': 'C13', 'C02': 'C02', 'C10': 'C10', 'C11': 'C11', 'C14': 'C14', 'C20': 'C20'}.get(prop)
         if only:
             env['STANDIN_ONLY'] = only
         rc, out, err, wall = run(['cargo', 'run', '--offline', '-q'], cwd=sdir, env=env, timeout=900)
